@@ -365,3 +365,35 @@ class LinearComplexityImplClasses:
   total = True
   total_props = ["C12"]
   props = ["C12"]
+
+
+# C12, NIST 2.8 (overlapping template matching): a block with c occurrences of the all-ones template is counted in class
+# min(5, c); the class probabilities are those of blocks of n bits and templates of m bits with K = 5; 5 degrees of freedom.
+@contract(f"{U}::OverlappingRunsOfOnes")
+class OverlappingRunsOfOnes:
+  params = {"seq": "int", "m": "int"}
+  returns = "int"
+  assumed = True
+  assumed_why = "bit-parallel run counting: decided by the bounded tier (C15 runs_and_run_lengths); here an uninterpreted function, >= 0"
+  returns_expr = "ufi('overlapping_runs_of_ones', seq, m)"
+  ensures = ["result == ufi('overlapping_runs_of_ones', seq, m)", "result >= 0"]
+
+
+impl(f"{N}::OverlappingTemplateMatchingDistribution", {"n": "int", "m": "int", "k": "int"})
+
+
+@contract(f"{N}::OverlappingTemplateMatchingImpl#classes")
+class OverlappingTemplateMatchingImplClasses:
+  params = {"blocks": "list[int]", "n": "int", "m": "int"}
+  returns = "opaque"
+  requires = ["n >= 1", "m >= 1"]
+  entry_ghost = ["g_v0 = 0", "g_cnt = 0"]
+  loops = {0: dict(invariant=["len(v) == 6", "k == 5"], head=["g_v0 = v[:]"],
+                   body_end=[("C12", "cnt == ufi('overlapping_runs_of_ones', block, m)"),
+                             ("C12", "v[min(5, cnt)] == g_v0[min(5, cnt)] + 1"),
+                             ("C12", "forall(t, 0, 6, t == min(5, cnt) or v[t] == g_v0[t])")])}
+  on_call = {f"{N}::OverlappingTemplateMatchingDistribution": ["assert [C12] args[0] == n and args[1] == m and args[2] == 5"],
+             f"{N}::ChiSquare": ["assert [C12] args[0] is v and args[2] is not None and args[2] == 5"]}
+  total = True
+  total_props = ["C12"]
+  props = ["C12"]
